@@ -186,6 +186,15 @@ def _follow_label(fn, blk, aliases, ty, info, seen, depth):
                 info['via_try'] = True
                 _follow_label(fn, t['ret'], {place_key(t['dest'])}, nty, info, seen, depth + 1)
                 return
+            if callee in ('core::result::Result::map_err', 'core::result::Result::map', 'core::result::Result::inspect',
+                          'core::result::Result::inspect_err') and args and args[0] in aliases and t.get('ret') is not None:
+                # Ok-ness is unchanged by these combinators: keep following the result they return
+                nd = place_key(t['dest'])
+                if nd == (0, ()):
+                    info['status'] = 'returned'
+                    return
+                _follow_label(fn, t['ret'], {nd}, fn.ty(t['dest_ty']), info, seen, depth + 1)
+                return
             if info['status'] == 'unlabelled':
                 info['status'] = 'consumed:' + callee
             return
@@ -468,6 +477,8 @@ def explore_result_fate(fn, origin_blk, start_blk, dest_key, dest_ty_ix, io_vari
                                 fnarg = c['fn']
                         if fnarg in ('core::convert::From::from', 'core::convert::Into::into'):
                             pass
+                        elif meth == 'map_err' and fnarg and re.match(r'^fatfs::error::Error::Io(::\{\{?constructor.*)?$', fnarg):
+                            pass  # `.map_err(Error::Io)`: the storage error is wrapped in the I/O variant, which is the rule
                         elif _closure_returns_its_argument(fn, deps, t):
                             pass  # `map_err(|e| { side effect; e })`: the error value is handed on unchanged
                         else:
@@ -908,6 +919,26 @@ def last_def_in_block(fn, blk, local, before=None):
     return out
 
 
+def _def_upwards(fn, blk, l, depth=0):
+    """how local l is defined on the way into blk's end: ('const', v) | ('def', block holding the defining statement) | None"""
+    cur = blk
+    for _ in range(12):
+        s = last_def_in_block(fn, cur, l)
+        if s is not None:
+            rv = s['rv']
+            if rv['k'] == 'use' and op_const(rv['a']) is not None and op_const(rv['a']).get('val') in (0, 1):
+                return ('const', op_const(rv['a'])['val'])
+            return ('def', cur)
+        t = fn.blocks[cur]['term']
+        if t['k'] == 'call' and t['dest']['l'] == l and not t['dest']['p']:
+            return None
+        ps = [x for x in fn.pred(cur) if x in fn.reachable()]
+        if len(ps) != 1:
+            return None
+        cur = ps[0]
+    return None
+
+
 def switch_source(fn, blk):
     """what does the SwitchInt at blk test?  {'kind': 'place'|'call'|'discr'|'binop'|'unknown', ...}"""
     t = fn.blocks[blk]['term']
@@ -941,7 +972,21 @@ def switch_source(fn, blk):
             return {'kind': 'unknown'}
         preds = [x for x in fn.pred(cur) if x in fn.reachable()]
         if len(preds) != 1:
-            return {'kind': 'unknown'}
+            # a materialised condition (`let c = a || b;` / `a && b`): some predecessors store a constant (the short-circuit
+            # arms), exactly one stores the last comparison - on that path the local IS that comparison
+            live = []
+            for pb_ in preds:
+                d_ = _def_upwards(fn, pb_, l)
+                if d_ is None:
+                    live = None
+                    break
+                if d_[0] == 'const':
+                    continue
+                live.append(d_)
+            if not live or len(live) != 1:
+                return {'kind': 'unknown'}
+            cur = live[0][1]
+            continue
         pb = preds[0]
         pt = fn.blocks[pb]['term']
         if pt['k'] == 'call' and pt['dest']['l'] == l and not pt['dest']['p']:
